@@ -31,7 +31,28 @@ var orderImageParams = map[string]struct {
 	"newRecTypeWith": {0, "Fields"},
 }
 
+// asFieldAccess: t as a field selection — directly, or through a package-local accessor whose whole normal form
+// is a field selection (utCases(u) = lookupUniInfo(u).Cases).
+func asFieldAccess(f *FC, t ir.Term) *ir.Field {
+	switch x := t.(type) {
+	case *ir.Field:
+		return x
+	case *ir.App:
+		if fr, ok := x.Fun.(*ir.FuncRef); ok {
+			if g, ok := f.Prog.ByKey[fr.Key]; ok && g.Generated {
+				if fl, ok := f.N.Func(g).(*ir.Field); ok {
+					return fl
+				}
+			}
+		}
+	}
+	return nil
+}
+
 func isOrderPreservingImage(f *FC, e ir.Term, typ types.Type, field string) bool {
+	if fl := asFieldAccess(f, e); fl != nil && fl.Name == field {
+		return true
+	}
 	switch x := e.(type) {
 	case *ir.Field:
 		if x.Name == field {
@@ -63,7 +84,10 @@ func isOrderPreservingImage(f *FC, e ir.Term, typ types.Type, field string) bool
 	return false
 }
 
-func checkListOrder(c *Ctx, rule string, f *FC) {
+func checkListOrder(c *Ctx, rule string, f *FC) { checkListOrderOf(c, rule, f, nil, 8) }
+
+// checkListOrderOf: ORDER restricted to the list fields keep accepts (nil: all).
+func checkListOrderOf(c *Ctx, rule string, f *FC, keep func(key string) bool, minSites int) {
 	r := c.R
 	sites := 0
 	for _, fn := range f.Prog.Funcs {
@@ -100,7 +124,7 @@ func checkListOrder(c *Ctx, rule string, f *FC) {
 				// … computed from the same field of an existing value of the same type
 				derives := false
 				ir.Walk(fv.Val, func(x ir.Term) bool {
-					if fl, ok := x.(*ir.Field); ok && fl.Name == fv.Name && fl.Obj != nil {
+					if fl := asFieldAccess(f, x); fl != nil && fl.Name == fv.Name && fl.Obj != nil {
 						if structDeclaringField(f, fl.Obj) == named.Obj().Name() {
 							derives = true
 						}
@@ -110,8 +134,11 @@ func checkListOrder(c *Ctx, rule string, f *FC) {
 				if !derives {
 					continue
 				}
-				sites++
 				key := named.Obj().Name() + "." + fv.Name
+				if keep != nil && !keep(key) {
+					continue
+				}
+				sites++
 				n[key]++
 				cons := sprintf("%s#%d", key, n[key])
 				if why, ok := orderExceptions[fn.Name+"|"+key]; ok {
@@ -124,6 +151,13 @@ func checkListOrder(c *Ctx, rule string, f *FC) {
 			}
 			return true
 		})
+	}
+	if keep != nil {
+		r.Unit("list_transformer_sites_"+rule, sites)
+		if sites < minSites {
+			r.Undecided(rule, "-", "sites", "fc", sprintf("%d list-rebuilding sites found; at least %d were confirmed by hand", sites, minSites))
+		}
+		return
 	}
 	// pins the rule relies on
 	c.expectNF(f, rule, "compositeTpList", []string{`seq[if((slice.Len(p1) ne slice.Len(p2)), seq[PanicNow(<msg>)])] (slice.Map(frt.Fst, slice.Map(tupApply(p0, _), slice.Zip(p1, p2))), slice.Concat(slice.Map(frt.Snd, slice.Map(tupApply(p0, _), slice.Zip(p1, p2)))))`}, "pairwise composite of two lists of equal length, in order")
